@@ -169,6 +169,8 @@ def total_stage(tier_, key):
         allm = corpus.MUTS
         for P in range(6):
             add(corpus.cfg(P, 3, 12), "all2")
+            for m in (corpus.MUTS[:6] if (not q or P in (1, 3, 5)) else ["character", "stringlen"]):
+                add(corpus.cfg(P, 1, 1, muts=[m], rate=1.0, ext=True, buf=True), "all2")
             add(corpus.cfg(P, 3, 12, muts=allm, rate=1.0, unsafe=True, ext=True, buf=True), "all2")
             variants = [corpus.cfg(P), corpus.cfg(P, 0, 0), corpus.cfg(P, 50, 3, ext=True, buf=True),
                         corpus.cfg(P, 30, 120, muts=allm, rate=1.0, unsafe=True),
@@ -299,9 +301,32 @@ def calls_stage(tier_, key):
                 "rand_states": 40 if q else 200, "values": 12 if q else 60, "shards": CORES - 2}
         sf = os.path.join(d, "calls_spec.json"); json.dump(spec, open(sf, "w"))
         prefix = os.path.join(d, "calls_")
-        p = run([PFV, "calls", sf, prefix], timeout=7200)
-        counts = json.loads(p.stdout.strip().split("\n")[-1])
+        for f in os.listdir(d):
+            if f.startswith("calls_ent_") or f.startswith("calls_mut_"): os.remove(os.path.join(d, f))
+        p = run([PFV, "calls", sf, prefix], timeout=7200, check=False)
         files = [os.path.join(d, f) for f in sorted(os.listdir(d)) if f.startswith("calls_ent_") or f.startswith("calls_mut_")]
+        last = json.loads(p.stdout.strip().split("\n")[-1]) if p.stdout.strip() else {}
+        if p.returncode == 3 and "hang" in last:
+            # a direct call did not return: keep the complete records, add one record for the hanging call
+            n_ent = n_mut = 0
+            for fp in files:
+                good = [l for l in open(fp).read().split("\n") if l.endswith("}")]
+                ok = []
+                for l in good:
+                    try: json.loads(l); ok.append(l)
+                    except Exception: pass
+                open(fp, "w").write("\n".join(ok) + ("\n" if ok else ""))
+                if "calls_ent_" in fp: n_ent += len(ok)
+                else: n_mut += len(ok)
+            hang = json.loads(last["hang"]) if last["hang"] else {"t": "mut", "mut": 0, "um": 0, "rate": 0, "sk": 2, "src": []}
+            hang.update({"meth": "int", "in": [0, 0], "out": {"some": 0, "v": []}, "panic": "call did not return within 20 s (mutator, source and rate as recorded; method unknown)"})
+            hf = os.path.join(d, "calls_mut_hang.ndjson"); open(hf, "w").write(json.dumps(hang) + "\n"); files.append(hf)
+            files = [f for f in files if os.path.getsize(f) > 0]
+            counts = {"ent": n_ent, "mut": n_mut + 1}
+        elif p.returncode != 0:
+            raise ToolError("pfv calls failed: %s" % (p.stdout or "")[-2000:])
+        else:
+            counts = last
         res = tlc.run_trace_shards("calls", "TraceCalls.tla", "TraceCalls.cfg", files, timeout=7200)
         findings, done, states = [], 0, 0
         for fp, (vals, st, wall) in zip(files, res):
